@@ -42,6 +42,9 @@ var strFragments = []string{
 	" lead", "trail ", "  ",
 	"h\u00e9llo", "w\u00f6rld \u2603", "\U0001D11E", "\u65e5\u672c\u8a9e", "\u00a0", "\u200b", "\ufffd", "e\u0301",
 	"urn:xmpp:x", "http://jabber.org/protocol/x#y", "-", "_", "%20", "\\", "/", "@",
+	// line and paragraph separators outside ASCII (NEL, LS, PS) and other
+	// Unicode white space: ordinary characters to XML
+	"premi\u00e8re\u2028zweite", "a\u0085b", "p1\u2029p2", "\u2028", "x\u000bvt\u000cff"[:1] + "\u3000wide", "end\u2029",
 }
 
 // fragments that cannot be represented in XML 1.0 at all: values containing
